@@ -4,6 +4,11 @@
 //! with five components tagged by its index) against M observers on real threads behind a spin
 //! barrier, and judges the resulting history with invariants that hold for *every* interleaving.
 //! The schedule is whatever the OS produces: this samples schedules, it does not enumerate them.
+//!
+//! `global.rs` runs the same kind of workload against the two PROCESS-GLOBAL slots (`emit::runtime::shared()`
+//! / `internal()`), one child process per case.
+
+pub mod global;
 
 use std::cell::Cell;
 use std::ops::ControlFlow;
@@ -21,13 +26,13 @@ use vcore::{vassert, vassert_eq, Cx, Fail, Res};
 pub const MAX_TAG: usize = 17;
 pub const BASE_SECS: u64 = 1_700_000_000;
 
-const C_EMIT: usize = 0;
+pub(crate) const C_EMIT: usize = 0;
 const C_FLUSH: usize = 1;
 const C_FILTER: usize = 2;
 const C_CTXT: usize = 3;
 const C_CLOCK: usize = 4;
 const C_RNG: usize = 5;
-const COMPONENT_NAMES: [&str; 6] = ["emitter.emit", "emitter.blocking_flush", "filter", "ctxt", "clock", "rng"];
+pub(crate) const COMPONENT_NAMES: [&str; 6] = ["emitter.emit", "emitter.blocking_flush", "filter", "ctxt", "clock", "rng"];
 
 thread_local! {
     // who is emitting (set by the harness thread before each operation)
@@ -37,7 +42,7 @@ thread_local! {
     static TL_RNG: Cell<Option<u8>> = const { Cell::new(None) };
 }
 
-#[derive(Debug, Clone)]
+#[derive(Debug, Clone, Serialize, Deserialize)]
 pub struct EvRec {
     pub emitter: u8,
     pub filter: Option<u8>,
@@ -55,7 +60,7 @@ pub struct Log {
 }
 
 impl Log {
-    fn new() -> Arc<Log> {
+    pub(crate) fn new() -> Arc<Log> {
         Arc::new(Log {
             events: Mutex::new(Vec::new()),
             calls: std::array::from_fn(|_| std::array::from_fn(|_| AtomicU32::new(0))),
@@ -66,7 +71,7 @@ impl Log {
         self.calls[tag as usize][component].fetch_add(1, Ordering::Relaxed);
     }
 
-    fn total_calls(&self) -> u64 {
+    pub(crate) fn total_calls(&self) -> u64 {
         self.calls.iter().flatten().map(|c| c.load(Ordering::Relaxed) as u64).sum()
     }
 }
@@ -232,19 +237,19 @@ struct ObsReport {
     problems: Vec<Fail>,
 }
 
-fn spin(n: u32) {
+pub(crate) fn spin(n: u32) {
     for _ in 0..n {
         std::hint::spin_loop();
     }
 }
 
-struct SpinBarrier {
-    arrived: AtomicUsize,
-    total: usize,
+pub(crate) struct SpinBarrier {
+    pub(crate) arrived: AtomicUsize,
+    pub(crate) total: usize,
 }
 
 impl SpinBarrier {
-    fn wait(&self) {
+    pub(crate) fn wait(&self) {
         self.arrived.fetch_add(1, Ordering::AcqRel);
         let mut n = 0u32;
         while self.arrived.load(Ordering::Acquire) < self.total {
@@ -325,7 +330,7 @@ enum Report {
     Obs(usize, Result<ObsReport, Fail>),
 }
 
-fn set_actor(actor: u32, seq: u32) {
+pub(crate) fn set_actor(actor: u32, seq: u32) {
     TL_ACTOR.with(|a| a.set((actor, seq)));
     TL_FILTER.with(|f| f.set(None));
     TL_RNG.with(|f| f.set(None));
@@ -674,7 +679,7 @@ fn count_in(events: &[EvRec], _o: &ObsReport, s: &Sent) -> bool {
     events.iter().any(|e| e.seq == s.seq && e.is_span == s.is_span && e.actor < ACTOR_MAIN_PRE)
 }
 
-static RERUN_BUDGET: std::sync::atomic::AtomicI64 = std::sync::atomic::AtomicI64::new(60_000);
+pub(crate) static RERUN_BUDGET: std::sync::atomic::AtomicI64 = std::sync::atomic::AtomicI64::new(60_000);
 
 pub fn check(c: &Case, cx: &mut Cx) -> Res {
     let k = c.inits.len();
